@@ -169,15 +169,21 @@ def _unk_shapes(params, max_pos, max_kw):
                         if st is None and sk is None:
                             continue
                         out.append((npos, kws, st, sk))
-    out.sort(key=lambda s: s[0] + len(s[1]) + (s[2] is not None) + (s[3] is not None))
+                        if st is not None and npos <= 2:
+                            # positional arguments written after the star argument: f(0, *xs, 0, 0)
+                            for npost in (1, 2):
+                                out.append((npos, kws, st, sk, npost))
+    out.sort(key=lambda s: s[0] + len(s[1]) + (s[2] is not None) + (s[3] is not None) + (s[4] if len(s) > 4 else 0))
     return out
 
 
 def _render_unk(shape):
-    npos, kws, st, sk = shape
+    npos, kws, st, sk = shape[:4]
+    npost = shape[4] if len(shape) > 4 else 0
     parts = ["0"] * npos
     if st:
         parts.append("*" + st)
+    parts.extend(["0"] * npost)
     parts.extend("%s=0" % k for k in kws)
     if sk:
         parts.append("**" + sk)
@@ -186,7 +192,8 @@ def _render_unk(shape):
 
 def _expansions(f, params, shape):
     """(some expansion binds, some expansion with every star-arg non-empty binds)"""
-    npos, kws, st, sk = shape
+    npos, kws, st, sk = shape[:4]
+    npos += shape[4] if len(shape) > 4 else 0          # positionals after the star argument extend the same positional sequence
     names = [n for k, n, d in params if k in ("po", "pk", "ko")] + ["z", "y"]
     any_binds = False
     nonempty_binds = False
@@ -230,9 +237,9 @@ def _judge_unk(res, params, shape, f, diags, order):
                       {"mode": "unk", "params": params, "shape": shape, "order": order},
                       "unexpected diagnostic %s on %s" % (other, _render_unk(shape)))
     if bad:
-        npos, kws, st, sk = shape
+        npos, kws, st, sk = shape[:4]
         sig = {"kind": bad, "pyanalyze": _classify_pa([d for c, d in diags if c == "incompatible_call"]),
-               "star": st or "none", "starkw": sk or "none"}
+               "star": st or "none", "starkw": sk or "none", "after_star": str(shape[4] if len(shape) > 4 else 0)}
         res.violation(sig, {"mode": "unk", "params": params, "shape": shape, "order": order},
                       "def f(%s); call %s with xs: list[int], ts: tuple[int, ...], dk: dict[str, int]: %s (pyanalyze: %s)"
                       % (S.render_params(params), _render_unk(shape), bad, diags[0][1].split("\n")[0] if diagnosed else "accepts"))
@@ -277,7 +284,7 @@ def replay(case):
     res = UnitResult()
     params = tuple(tuple(p) for p in case["params"])
     sh = case["shape"]
-    shape = (sh[0], tuple(sh[1]), sh[2], None if sh[3] is None else (tuple(sh[3]) if case["mode"] == "known" else sh[3]))
+    shape = (sh[0], tuple(sh[1]), sh[2], None if sh[3] is None else (tuple(sh[3]) if case["mode"] == "known" else sh[3])) + tuple(sh[4:])
     hdr = "def f(%s): pass\n" % S.render_params(params)
     ns = {}
     exec(hdr, ns)
